@@ -866,7 +866,7 @@ private:
         header_bytes += write_container(this->levels_offsets, out);
         header_bytes += write_container(this->segments, out);
         for (auto it = first; it != last; ++it)
-            write_member(*it, out);
+            write_member(K(*it), out);
         file_bytes = header_bytes + this->n * sizeof(K);
         out.seekp(0);
         write_member(header_bytes, out);
